@@ -197,7 +197,7 @@ def run_oracle(module: str, cfg: Optional[str], data: Any, tag: str, timeout: in
             res['states'] = int(m.group(1))
             res['distinct'] = int(m.group(2))
         bad = ('Parsing or semantic analysis failed' in out or 'TLC threw an unexpected exception' in out
-               or 'java.lang.' in out and 'Exception' in out or 'Error: ' in out and 'evaluat' in out)
+               or 'java.lang.' in out and 'Exception' in out or re.search(r'^Error: ', out, re.M) is not None)
         done = ('Model checking completed' in out) or ('Finished in' in out)
         if bad or not done:
             raise TLCError('TLC oracle run failed (%s/%s):\n%s' % (module, cfg, out[-6000:]))
